@@ -548,7 +548,20 @@ class Gen(object):
         auxes = [x["name"] for x in prog["framers"] if x["sched"] == "aux"]
         slaves = [x["name"] for x in prog["framers"] if x["sched"] == "slave"]
         mains = [x["name"] for x in prog["framers"] if x["sched"] in ("active", "inactive")]
-        # a plain original aux may be listed in several frames (ownership conflicts are part of C08/C09)
+        toplist, auxparent = {}, {}
+
+        def related(fm, f, g):
+            """frames f and g of fm can occur in one outline (one is an ancestor of the other or equal)"""
+            frs = {x["name"]: x for x in fm["frames"]}
+
+            def anc(x):
+                out = []
+                while x is not None:
+                    out.append(x)
+                    x = frs[x]["over"]
+                return out
+            return f in anc(g) or g in anc(f)
+
         for fm in prog["framers"]:
             for fr in fm["frames"]:
                 kids = [c["name"] for c in fm["frames"] if c["over"] == fr["name"]]
@@ -565,12 +578,48 @@ class Gen(object):
                         fr[key].append(self.simple_act(prog, fm))
                 if r.random() < 0.25 and self.f("let"):
                     fr["beacts"] = self.needs(prog, fm, 1, 2)
-                # auxiliaries (not for aux framers of aux framers beyond depth: allow nesting once)
-                cand = [a for a in auxes if a != fm["name"]]
-                if fm["sched"] == "aux":
-                    cand = [a for a in cand if a > fm["name"]]   # acyclic nesting
+                # plain auxiliaries.  An original auxiliary may be shared by frames of several scheduled /
+                # slave framers (ownership conflicts are part of C08/C09) and by frames of one framer that
+                # never occur in the same outline; it is never listed twice within one outline nor both by a
+                # framer and by one of that framer's own auxiliaries (known finding C09
+                # shared-original-aux-same-outline: ioflo's ownership test runs before any frame is entered).
+                top = fm["sched"] != "aux"
+                cand = []
+                for a in auxes:
+                    if a == fm["name"]:
+                        continue
+                    if top:
+                        if auxparent.get(a) is not None:
+                            continue
+                        # slaves are entered by fiats in the middle of other framers' entries: exclusive auxes
+                        users = set(f2 for (f2, g) in toplist.get(a, []))
+                        if fm["sched"] == "slave" and users - {fm["name"]}:
+                            continue
+                        if fm["sched"] != "slave" and any(u.startswith("s") for u in users):
+                            continue
+                        prev = [g for (f2, g) in toplist.get(a, []) if f2 == fm["name"]]
+                        if "*cond*" in prev:
+                            continue
+                        prev = [g for g in prev if g != "*cond*"]
+                        if any(related(fm, g, fr["name"]) for g in prev):
+                            continue
+                    else:
+                        if a <= fm["name"] or toplist.get(a) or auxparent.get(a) not in (None,):
+                            continue
+                    cand.append(a)
                 if cand and r.random() < 0.35:
-                    fr["auxes"].append(r.choice(cand))
+                    a = r.choice(cand)
+                    fr["auxes"].append(a)
+                    if top:
+                        toplist.setdefault(a, []).append((fm["name"], fr["name"]))
+                    else:
+                        auxparent[a] = fm["name"]
+                # candidates for conditional auxiliaries: same family rules, and not plain in this frame
+                cand = [a for a in auxes if a != fm["name"] and a not in fr["auxes"] and
+                        ((top and auxparent.get(a) is None and
+                          not (fm["sched"] == "slave" and set(f2 for (f2, g) in toplist.get(a, [])) - {fm["name"]}) and
+                          not (fm["sched"] != "slave" and any(f2.startswith("s") for (f2, g) in toplist.get(a, [])))) or
+                         (not top and a > fm["name"] and not toplist.get(a) and auxparent.get(a) in (None, fm["name"])))]
                 # bids
                 if mains and r.random() < 0.25 and self.f("bid"):
                     ctl = r.choice(["stop", "start", "run", "abort", "ready", "stop"])
@@ -582,7 +631,7 @@ class Gen(object):
                     per = r.choice([None, None, 0.0, prog["tick"], 2 * prog["tick"], 0.3]) if self.f("period") else None
                     fr[r.choice(["enacts", "reacts", "exacts"])].append(["bid", ctl, tg, per])
                 # fiats on slaves
-                if slaves and fm["sched"] != "slave" and r.random() < 0.3:
+                if slaves and fm["sched"] in ("active", "inactive") and r.random() < 0.3:
                     fr[r.choice(["enacts", "reacts", "exacts"])].append(
                         ["fiat", r.choice(["ready", "start", "run", "run", "stop", "abort"]), r.choice(slaves)])
                 # done
@@ -596,8 +645,15 @@ class Gen(object):
                         far = r.choice(fm["frames"])["name"]
                         ns = self.needs(prog, fm, 0 if r.random() < 0.15 else 1, 2)
                         fr["preacts"].append(["go", ns, far])
-                    elif x < 0.75 and cand and self.f("condaux"):
-                        fr["preacts"].append(["aux", self.needs(prog, fm, 1, 2), r.choice(cand)])
+                    elif x < 0.75 and self.f("condaux") and cand:
+                        # (the same framer as plain AND conditional aux of one frame is excluded: see
+                        #  known finding C06 aux-plain-and-conditional-same-frame)
+                        a = r.choice(cand)
+                        fr["preacts"].append(["aux", self.needs(prog, fm, 1, 2), a])
+                        if not top:
+                            auxparent[a] = fm["name"]
+                        else:
+                            toplist.setdefault(a, []).append((fm["name"], "*cond*"))
                     else:
                         fr["preacts"].append(["act", self.simple_act(prog, fm)])
         return prog
